@@ -147,6 +147,19 @@ def stepLine (st : St) (line : String) : St × List String :=
       let r' := editReq c r
       (st, [s!"ok h1={showPairs (emitted r')} h2={showPairs (toH2 sch r')} sticky={match stickyFoundIn c r.jar with | some v => hx v | none => "~"}"])
     | _, _, _, _, _, _, _ => (st, ["bad-op"])
+  -- redit <ctx> <rwhost|~> <orig|~> <rwpath|~> <reqedits> <respedits> <method> <target> <host> <fields> <jar> <resp>:
+  -- an HTTP/1.1 exchange through the editor and the router's rewrite / header-edit passes
+  | ["redit", cx, rh, og, rp, es, res, m, t, h, fs, jar, rs] =>
+    match parseCtx cx, parseOptBytes rh, parseOptBytes og, parseOptBytes rp, parseList parsePair es, parseList parsePair res,
+          hexToBytes m, hexToBytes t, hexToBytes h, parseList parseField fs, parseList parsePair jar, parseList parsePair rs with
+    | some c, some rh, some og, some rp, some es, some res, some m, some t, some h, some fs, some jar, some rs =>
+      let r : Req := { method := m, target := t, host := h, fields := fs,
+                       jar := jar.map (fun p => { key := p.1, val := p.2 }), body := .empty }
+      let r' := routeReq rh og rp (es.map fun p => { key := p.1, val := p.2 }) (editReq c r)
+      let respFields : List Field := (rs ++ [(cContentLength, [48]), (cConnection, sClose)]).map fun p => Field.hdr p.1 p.2
+      let resp := applyEdits (res.map fun p => { key := p.1, val := p.2, mode := .append }) (editResponse c respFields)
+      (st, [s!"ok {hx r'.target} {showPairs (emitted r')} | {showFields resp}"])
+    | _, _, _, _, _, _, _, _, _, _, _, _ => (st, ["bad-op"])
   -- resp <ctx> <fields>
   | ["resp", cx, fs] =>
     match parseCtx cx, parseList parseField fs with
